@@ -23,8 +23,8 @@ FUNCTIONS = ['is_consistent', '_fill_tensor/set_block/zeros (seeds)', 'sequences
 ASSUMPTIONS = ['exact arithmetic', 'LAPACK contracts for svd/qr/eigh steps', 'group axioms for arbitrary charges: see C19']
 OUTSIDE = ['programs longer than the bound', 'the creation-time selection rule for symbolic charges inside _fill_tensor/set_block (charges are enumerated, not symbolic)', 'rank > 6']
 BOUNDS = {'quick': {'program length': 3, 'alphabet': len(OPS), 'programs': 'pairwise covering over (sym, op1, op2, op3, dtype, charge style)', 'seeds': 'catalogue rank 2..4, dims 1,2'},
-          'thorough': {'program length': 4, 'programs': '3-wise covering'}}
-OPTS = {'quick': {'max_paths': 200, 'case_deadline_s': 300}, 'thorough': {'max_paths': 1000, 'case_deadline_s': 900}}
+          'thorough': {'program length': 4, 'programs': 'pairwise covering + 600 extra random rows, 30 repetitions; at most two factorisations per program'}}
+OPTS = {'quick': {'max_paths': 400, 'case_deadline_s': 300}, 'thorough': {'max_paths': 6000, 'case_deadline_s': 1500}}
 SYMS = list(cat.SYMS)
 
 
@@ -34,10 +34,17 @@ def cases(tier, seed):
     fac = {'sym': SYMS, 'dtype': ['real', 'complex'], 'n_style': ['zero', 'random'], 'rank': [2, 3, 4]}
     for k in range(L):
         fac[f'op{k}'] = OPS
-    reps = 1 if tier == 'quick' else 10
+    reps = 1 if tier == 'quick' else 30
     for rep in range(reps):
         for i, row in enumerate(cat.covering(fac, seed=seed * 29 + rep, strength=2 if tier == 'quick' else 2, extra=0 if tier == 'quick' else 600)):
             c = dict(row)
+            # at most two factorisations per program: each one forks 3^k ways on the signs / order of its outputs (path budget)
+            nfac = 0
+            for k in range(L):
+                if c[f'op{k}'] in ('svd', 'qr', 'eigh', 'svd_trunc', 'eigh_trunc'):
+                    nfac += 1
+                    if nfac > 2:
+                        c[f'op{k}'] = 'conj'
             c.update(kind='program', tier=tier, id=f'prog-{rep}-{i}', seed=hash_seed(seed, 'C02', rep, i), L=L)
             out.append(c)
     # creation routines: every symmetry x rank 0..6 x diag
